@@ -246,8 +246,22 @@ package vm
 // source address of the program whose resource is an account, its address string, position by position
 //@ def isAcct(v) = typeis(v, "machine.AccountAddress")
 //@ def acctStr(v) = as(v, "machine.AccountAddress")
+// the resource table of a compiled program: every entry is one of the five descriptors, and a descriptor that refers to
+// other resources (the account / asset of a meta() or balance() variable, the asset of a monetary literal) refers to
+// earlier entries of the right type (VisitVars / VisitLit allocate them first). Assumed here, for C12's no-panic claim.
+//@ def resWF(rs, i) = isRes(rs[i])
+//@ ... && (typeis(rs[i], "program.VariableAccountMetadata") ==> 0 <= as(rs[i], "program.VariableAccountMetadata").Account && as(rs[i], "program.VariableAccountMetadata").Account < i && resType(rs[as(rs[i], "program.VariableAccountMetadata").Account]) == 1)
+//@ ... && (typeis(rs[i], "program.VariableAccountBalance") ==> 0 <= as(rs[i], "program.VariableAccountBalance").Account && as(rs[i], "program.VariableAccountBalance").Account < i && resType(rs[as(rs[i], "program.VariableAccountBalance").Account]) == 1)
+//@ ... && (typeis(rs[i], "program.Monetary") ==> 0 <= as(rs[i], "program.Monetary").Asset && as(rs[i], "program.Monetary").Asset < i && resType(rs[as(rs[i], "program.Monetary").Asset]) == 2)
+// what ResolveResources keeps true of the prefix it has resolved: the value has the type of its descriptor
+//@ def resolvedOK(m) = forall i4 in 0..len(m.Resources) :: !isRes(m.Resources[i4]) && resType(m.Resources[i4]) == resType(m.UnresolvedResources[i4])
 //@ func (*vm.Machine).ResolveResources
 //@   requires m != nil && m.UnresolvedResourceBalances != nil && pendingRegistered(m)
+//@   assumes forall i3 in 0..len(m.UnresolvedResources) :: resWF(m.UnresolvedResources, i3) // C12
+//@   assumes forall n8 string :: has(m.Vars, n8) ==> !isRes(m.Vars[n8]) // C12
+//@   assumes forall n7 string, i2 int :: has(m.Vars, n7) && 0 <= i2 && i2 < len(m.UnresolvedResources) && typeis(m.UnresolvedResources[i2], "program.Variable") && as(m.UnresolvedResources[i2], "program.Variable").Name == n7 ==> resType(m.Vars[n7]) == as(m.UnresolvedResources[i2], "program.Variable").Typ // C12 (ParseVariablesJSON checks each variable against its declared type)
+//@   nopanic // C12
+//@   loop 1 invariant resolvedOK(m) // C12
 //@   requires len(m.Resources) == 0 // C02
 // resource addresses are 16 bits wide; the compiler never allocates more (pvInv in the compiler's contracts)
 //@   assumes len(m.UnresolvedResources) <= 65536
@@ -263,14 +277,23 @@ package vm
 //@   modifies Machine.resolveCalled, Machine.Resources, map[int]string, map[machine.Address]string
 //@   property C12 C02
 //@   alsofor C08
+// the needed-balance table of a compiled program maps account resources to asset-bearing resources (assumed for C12)
 //@ func (*vm.Machine).ResolveBalances
 //@   requires m != nil && pendingRegistered(m)
+//@   assumes forall a7 machine.Address :: has(m.Program.NeededBalances, a7) && 0 <= a7 && a7 < len(m.Resources) ==> valType(m.Resources[a7]) == 1 // C12
+//@   assumes forall a6 machine.Address, b6 machine.Address :: has(m.Program.NeededBalances, a6) && has(m.Program.NeededBalances[a6], b6) && 0 <= b6 && b6 < len(m.Resources) ==> valType(m.Resources[b6]) == 5 || valType(m.Resources[b6]) == 2 // C12
+//@   nopanic // C12
 //@   ensures err == nil ==> forall i8 in 0..len(m.Resources) :: !pendingBal(m.Resources[i8]) // C12
 //@   loop 1 invariant len(m.Resources) == old(len(m.Resources)) && m.UnresolvedResourceBalances == old(m.UnresolvedResourceBalances)
 //@   loop 1 invariant forall k7 int :: has(m.UnresolvedResourceBalances, k7) ==> 0 <= k7 && k7 < len(m.Resources) && typeis(m.Resources[k7], "machine.Monetary")
 //@   loop 1 invariant forall i7 in 0..len(m.Resources) :: pendingBal(m.Resources[i7]) ==> has(m.UnresolvedResourceBalances, i7) && !in(i7, visited)
 //@   loop 2 invariant forall i6 in 0..len(m.Resources) :: !pendingBal(m.Resources[i6])
 //@   loop 3 invariant forall i5 in 0..len(m.Resources) :: !pendingBal(m.Resources[i5])
+//@   loop 1 invariant forall i4 in 0..len(m.Resources) :: valType(m.Resources[i4]) == old(valType(m.Resources[i4])) // C12
+//@   loop 2 invariant len(m.Resources) == old(len(m.Resources)) && (forall i3 in 0..len(m.Resources) :: valType(m.Resources[i3]) == old(valType(m.Resources[i3]))) // C12
+//@   loop 3 invariant len(m.Resources) == old(len(m.Resources)) && (forall i2 in 0..len(m.Resources) :: valType(m.Resources[i2]) == old(valType(m.Resources[i2]))) // C12
+//@   loop 2 invariant m.Balances != nil && (forall a5 machine.AccountAddress :: has(m.Balances, a5) ==> m.Balances[a5] != nil) // C12
+//@   loop 3 invariant m.Balances != nil && (forall a4 machine.AccountAddress :: has(m.Balances, a4) ==> m.Balances[a4] != nil) && has(m.Balances, accountAddress) // C12
 //@   ensures m.Program == old(m.Program) && m.UnresolvedResources == old(m.UnresolvedResources) // C08: the (possibly cached, shared) program is never written
 //@   modifies Machine.Balances, Machine.Resources, map[machine.AccountAddress]map[machine.Asset]*machine.MonetaryInt, map[machine.Asset]*machine.MonetaryInt
 //@   property C12
